@@ -1,0 +1,54 @@
+//go:build verif
+
+package forwarding
+
+import (
+	"context"
+
+	"github.com/mutagen-io/mutagen/pkg/state"
+	urlpkg "github.com/mutagen-io/mutagen/pkg/url"
+)
+
+// VerifC33NewRunController creates a wrapper around a controller that is
+// complete enough for the controller's real run loop (controller.run): a
+// session whose source and destination URLs use the given protocol (so that
+// reconnection goes through ProtocolHandlers[protocol]), empty merged
+// configurations, an initial state and no logger. It exists only in builds
+// with the verif tag.
+func VerifC33NewRunController(protocol urlpkg.Protocol) *VerifC33Controller {
+	tracker := state.NewTracker()
+	session := &Session{
+		Identifier:    "verif-c33",
+		Version:       DefaultVersion,
+		Source:        &urlpkg.URL{Kind: urlpkg.Kind_Forwarding, Protocol: protocol, Path: "tcp:localhost:1"},
+		Destination:   &urlpkg.URL{Kind: urlpkg.Kind_Forwarding, Protocol: protocol, Path: "tcp:localhost:2"},
+		Configuration: &Configuration{},
+	}
+	return &VerifC33Controller{
+		tracker: tracker,
+		controller: &controller{
+			stateLock:                      state.NewTrackingLock(tracker),
+			session:                        session,
+			mergedSourceConfiguration:      &Configuration{},
+			mergedDestinationConfiguration: &Configuration{},
+			state: &State{
+				Session:          session,
+				SourceState:      &EndpointState{},
+				DestinationState: &EndpointState{},
+			},
+		},
+	}
+}
+
+// StartRun starts controller.run with the given (connected) endpoints in a new
+// Goroutine, the way resume does. It returns the function that cancels the
+// run loop (as pausing does) and the channel that is closed when the run loop
+// has exited.
+func (v *VerifC33Controller) StartRun(source, destination Endpoint) (context.CancelFunc, <-chan struct{}) {
+	ctx, cancel := context.WithCancel(context.Background())
+	done := make(chan struct{})
+	v.controller.cancel = cancel
+	v.controller.done = done
+	go v.controller.run(ctx, source, destination)
+	return cancel, done
+}
